@@ -14,6 +14,12 @@ SUBJ = {
  "D20": "fix: a reorg removes the pending matched blocks",
  "D1": "fix: SendBlock checks the body",
  "D10": "fix: a rejected blocks/transactions proof",
+ "D5a": "fix: remove a matched-blocks record only after",
+ "D5b": "fix: write the last state and the last n headers atomically",
+ "D5c": "fix: apply set_scripts to the storage atomically",
+ "D5d": "fix: mark the storage as initialized only after",
+ "D5e": "fix: rollback_to_block does not skip a script",
+ "D25": "fix: a fork rolls the index back to the fork point",
  "D8": "fix: the child fast path checks the chain root",
  "D24": "fix: do not prepend overlapping old headers",
 }
